@@ -104,6 +104,13 @@ if __name__ == "__main__":
                     meta.append((len(bases) - 1, name))
     # refusals
     refus = [(0, "t none"), (CORES + 1, "t none"), ((1 << 64) - 1, "t none"), (1, "t ok"), (CORES, "t ok")]
+    # requests that look admissible once their upper bits are cut off (a count narrowed to 8, 16, 32 or 48 bits)
+    for w in (8, 16, 32, 48, 63):
+        for r_ in (0, 1, 2, CORES):
+            k = (1 << w) + r_
+            if k > CORES:
+                refus.append((k, "t none"))
+    refus += [((1 << 64) - (1 << 16) + 2, "t none"), (2 * CORES, "t none"), (CORES + 2, "t none")]
     for k, _ in refus:
         texts.append((str(len(texts)), "0 new 3 ; threads %d ; dump" % k))
         meta.append((None, "threads %d" % k))
